@@ -219,11 +219,31 @@ def run_real(fn, *a, **k):
             return ('raise', e)
 
 
+def _slots_state(obj):
+    """every slot / instance attribute of an object: which are set, and (for anything that is not one of the known
+    containers snapshotted separately) a description of the value - so that state cached on an input shows up"""
+    out = []
+    names = []
+    for klass in type(obj).__mro__:
+        names += list(getattr(klass, '__slots__', ()))
+    names += list(getattr(obj, '__dict__', {}))
+    for n in sorted(set(names)):
+        if n in ('_parameters', 'sources', 'source_depths', '_hash_basis_cache'):
+            continue
+        try:
+            v = getattr(obj, n)
+        except AttributeError:
+            out.append((n, '<unset>'))
+            continue
+        out.append((n, v if isinstance(v, (int, str, float, bool, type(None))) else ('%s@%x' % (type(v).__name__, id(v)), repr(v)[:200])))
+    return out
+
+
 def snapshot_sig(sig):
     """deep value snapshot for frame checks"""
     return (params_data(sig), [(k, list(map(id, v)) if k != '+depths' else sorted((id(f), d) for f, d in v.items()))
                                for k, v in sig.sources.items()], id(sig.sources),
-            [(id(p), id(p.sources), list(map(id, p.sources))) for p in sig.parameters.values()])
+            [(id(p), id(p.sources), list(map(id, p.sources)), _slots_state(p)) for p in sig.parameters.values()], _slots_state(sig))
 
 
 # --------------------------------------------------------------------------- mask
